@@ -622,6 +622,15 @@ AppendUnmaskedField(O, S) ==
      e |-> Entry("AppendUnmaskedField", FALSE, TRUE, S[q[1]].name,
                  (IF S[q[1]].fn THEN "function-" ELSE "constructor-") \o q[2].t, S[q[1]].fn /\ q[2].t = "#", <<q[1], q[2].t>>)]
     : q \in {i \in 1..Len(S) : InOld(O, S[i]) /\ Editable(S, i)} \X {TInt, TNat} }
+  \cup
+  (* the compound edit that is documented safe for FUNCTIONS only (AppendFunctionMaskAndArgs): a new unmasked # *)
+  (* field followed by a field masked by it, appended to a CONSTRUCTOR -- old values do not contain the mask    *)
+  { LET c == S[i]  m == FreshField(c, "zm") IN
+    [s |-> SetFields(S, i, c.fields \o <<Field(m, TNat, "", 0), Field("za" \o ToString(Len(c.fields) + 2), TInt, m, 0)>>),
+     e |-> Entry("AppendUnmaskedField", FALSE, TRUE, c.name,
+                 IF \A j \in 1..Len(c.fields) : c.fields[j].mask = "" THEN "constructor-mask-and-masked-field"
+                 ELSE "constructor-mask-and-masked-field-besides-masks", FALSE, <<i, "compound">>)]
+    : i \in {i \in CtorIdxs(S) : InOld(O, S[i]) /\ Editable(S, i)} }
 ReuseUsedBit(O, S) ==
   { [s |-> SetFields(S, q[1], Append(S[q[1]].fields, Field(FreshField(S[q[1]], "zr"), TInt, q[2], q[3]))),
      e |-> Entry("ReuseUsedBit", FALSE, TRUE, S[q[1]].name,
